@@ -168,7 +168,7 @@ def gen_cases(rng, tier, budget):
     for ns in [0, 1, 2, 0x7fff, 0x8000, 0xffff]:
         for nr in [0, 1, 0x8000]:
             cases.append("sccrq %d %d" % (ns, nr))
-    nrand = (budget or 6000) if quick else (budget or 40000)
+    nrand = (budget or 4000) if quick else (budget or 40000)
     profs = sorted(PROFILES)
     for i in range(nrand):
         prof = profs[i % len(profs)]
